@@ -159,3 +159,18 @@ reg('C05',
     level_text='Exhaustive over the stated signatures and lists: every deviation of the read results, delivered values, error codes and their order, -200/-108 accounting and the SCPI_Input return value from the model is reported.',
     level_note='item classification uses the independent reference lexer of C13; unit names come from the exported unit table',
     design_ref='DESIGN.md section 3 / C05')
+
+reg('C06',
+    title='responses are framed: ; between units, , between items, one terminator',
+    src='c06_framing.c',
+    configs={'quick': ['def'], 'thorough': ['def']},
+    deadline={'quick': 100, 'thorough': 1500},
+    level=MC,
+    technique='bounded-exhaustive enumeration of messages x predecessor histories executed through SCPI_Input (ASan), byte-exact comparison of write()/flush() with a framing model',
+    rule={'quick': 'every message of 1..5 units over 17 unit kinds (commands OK/ERR/with unread parameter; queries emitting 0/1/2/4 results of 16 rotating result types - integers in 4 bases, float, double, bool, text, mnemonic, blocks whole and streamed, ASCII and binary arrays incl. empty ones, error - then OK / ERR / ERR with own error / parameter left unread; undefined header; invalid unit; empty unit), each on a fresh context and after each of 12 predecessor messages; non-trivial = message in which at least one unit responds',
+          'thorough': 'messages of 1..6 units (6-unit messages after 4 histories)'},
+    assumptions=['a unit responds iff it is a query whose handler emitted at least one result or completed without error (an empty successful query is an empty response unit)',
+                 'non-query handlers emit nothing (a command that writes results is handler misuse)'],
+    level_text='Exhaustive over the stated messages and histories: output bytes, number and position of flushes and number of errors are compared with the model for every one.',
+    level_note='result item texts are fixed literals (their correctness is the subject of C07/C14/C16/C17)',
+    design_ref='DESIGN.md section 3 / C06')
